@@ -196,6 +196,7 @@ pub struct Gen {
     sparse: Option<bool>,
     /// property being judged (C02 runs never use values built through unsafe constructors)
     prop: u32,
+    step0: bool,
     /// the previous owner step was a pop or a special move: a good place for a fault
     hot: bool,
 }
@@ -209,7 +210,7 @@ fn uci_text(m: &RMove) -> String {
 
 impl Gen {
     pub fn new(sw: Swarm, rng: Rng) -> Gen {
-        Gen { sw, rng, hot: false, sparse: None, prop: 0 }
+        Gen { sw, rng, hot: false, sparse: None, prop: 0, step0: true }
     }
 
     fn choose_legal(&mut self, info: &Info, w: &World) -> Option<RMove> {
@@ -717,6 +718,7 @@ impl Gen {
                 1 | 2 => WOp::End,
                 3 | 4 => WOp::Pos,
                 5 => WOp::Len,
+                6 if self.rng.chance(40) => WOp::Renew,
                 _ => {
                     if dir[wi] {
                         WOp::Next
@@ -894,6 +896,12 @@ impl Gen {
     /// The scheduler: picks a runnable task and one operation from its alphabet.
     pub fn next_op(&mut self, w: &mut World, prop: u32) -> Op {
         self.prop = prop;
+        if self.step0 {
+            self.step0 = false;
+            if self.rng.chance(30) {
+                return Op::Construct(self.rng.below(5) as u8);
+            }
+        }
         if self.sparse.is_none() {
             let sparse = prop == C14 && self.rng.chance(35);
             self.sparse = Some(sparse);
